@@ -45,6 +45,9 @@ type Case struct {
 	RespPieces   []int       `json:"resp_pieces,omitempty"`
 	RespTrailers [][2]string `json:"resp_trailers,omitempty"`
 	Announce     bool        `json:"announce"` // trailers announced in a Trailer header (else http.TrailerPrefix)
+	// AbortAfter > 0 (last case of a script only): the backend's connection dies after that many flushed pieces of
+	// the body (no Content-Length). The client must not be handed the torso as a complete response.
+	AbortAfter int `json:"abort_after,omitempty"`
 }
 
 type Script struct {
@@ -225,6 +228,13 @@ func gen(t *rapid.T) Script {
 	for i := 0; i < n; i++ {
 		s.Cases = append(s.Cases, genCase(t, s.Proto, i, vstat.Tier() == "thorough"))
 	}
+	if rapid.IntRange(0, 7).Draw(t, "backendDies") == 0 {
+		last := &s.Cases[n-1]
+		if last.Method != "HEAD" && last.Status == 200 {
+			last.RespBodyLen, last.RespPieces, last.RespTrailers = 200000, []int{8192}, nil
+			last.AbortAfter = rapid.IntRange(1, 12).Draw(t, "abortAfter")
+		}
+	}
 	s.Concurrent = s.Proto == "h2" && n > 1 && rapid.Bool().Draw(t, "conc")
 	return s
 }
@@ -292,6 +302,9 @@ func exec(t *testing.T, s Script) *vstat.Violation {
 					f.Flush()
 				}
 				b = b[n:]
+				if c.AbortAfter > 0 && k >= c.AbortAfter && len(b) > 0 {
+					panic(http.ErrAbortHandler) // net/http drops the connection without finishing the chunked body
+				}
 			}
 			for _, tr := range c.RespTrailers {
 				if c.Announce {
@@ -539,6 +552,13 @@ func exec(t *testing.T, s Script) *vstat.Violation {
 		}
 		// ---- response direction
 		r := resps[i]
+		if c.AbortAfter > 0 {
+			classes = append(classes, "backend-dies-mid-body:"+s.Proto)
+			if r.err == "" && len(r.body) < c.RespBodyLen {
+				return vstat.Violf(pc+"|truncated-response-delivered-as-complete", "case %d: the backend's connection died after %d of %d body bytes; the client received status %d and %d bytes as a complete, error-free response", i, c.AbortAfter*8192, c.RespBodyLen, r.status, len(r.body))
+			}
+			continue
+		}
 		if r.err != "" {
 			return vstat.Violf(pc+"|response-failed", "case %d: %s", i, r.err)
 		}
@@ -705,7 +725,7 @@ func dedup(in []string) []string {
 func TestPassThrough(t *testing.T) {
 	rig.Certs()
 	col.Mandatory("proto:h2", "proto:http/1.1", "preserve-host:true", "preserve-host:false", "request-body>64KiB", "response-body>64KiB", "request-trailers", "response-trailers", "hop-by-hop", "concurrent", "chunked-or-unknown-length", "proto:h2raw", "padded-request-data", "unannounced-request-trailers",
-		"response-trailers-all-empty:h2", "uploads-beyond-1MiB-on-one-connection:h2", "expect-100-continue-on-a-used-connection:h2")
+		"response-trailers-all-empty:h2", "uploads-beyond-1MiB-on-one-connection:h2", "expect-100-continue-on-a-used-connection:h2", "backend-dies-mid-body:h2")
 	vstat.Run(t, vstat.Spec[Script]{Col: col, Quick: 500, Thorough: 8000, Gen: gen, Exec: func(s Script) *vstat.Violation { return exec(t, s) }})
 }
 
